@@ -135,6 +135,12 @@ func (d *dir) RepoGet(ctx context.Context, repoStr string) (Repo, error) {
 	if stringsHasAny(strings.Split(repoStr, "/"), indexFile, layoutFile, blobsDir) {
 		return nil, fmt.Errorf("repo %s cannot contain %s, %s, or %s%.0w", repoStr, indexFile, layoutFile, blobsDir, types.ErrRepoNotAllowed)
 	}
+	// a name the filesystem cannot hold is a name that is not permitted, not a storage failure
+	for _, el := range strings.Split(repoStr, "/") {
+		if len(el) > 255 {
+			return nil, fmt.Errorf("repo %s has a path element longer than 255 bytes%.0w", repoStr, types.ErrRepoNotAllowed)
+		}
+	}
 	dr := dirRepo{
 		wgBlock: make(chan struct{}, 1),
 		path:    filepath.Join(d.root, repoStr),
